@@ -243,7 +243,33 @@ func divRule(id string, props []string, floor int, entries []string, doc string)
 					continue
 				}
 				if why, ok := divisorTable[fk+" | "+s.what+" / "+dname]; ok {
-					r.OK(fk, construct, "reviewed table entry: "+why, r.P(s.instr))
+					// the premise of the entry is checked, not assumed: a dominating `!shouldSkipRewardsToAsset(..)` whose
+					// operands include `TotalTokensWithAsset(<same validator>, <same asset>)` tested non-zero
+					premise := false
+					dargs := s.div.CallArgsT()
+					for _, g := range fa.GuardsOf(s.instr) {
+						if g.Pos || !g.Cond.IsCall("keeper.shouldSkipRewardsToAsset") {
+							continue
+						}
+						for _, hg := range e.helperGuards(g) {
+							for _, rel := range relsOf(hg) {
+								if rel.TA == nil || !(rel.B == "0" && (rel.Op == "!=" || rel.Op == ">")) {
+									continue
+								}
+								if rel.TA.IsCall("types.AllianceValidator.TotalTokensWithAsset") {
+									ha := rel.TA.CallArgsT()
+									if len(ha) == len(dargs) && len(ha) == 2 && ha[0].Eq(dargs[0]) && ha[1].Eq(dargs[1]) {
+										premise = true
+									}
+								}
+							}
+						}
+					}
+					if premise {
+						r.OK(fk, construct, "reviewed table entry (premise checked: the skip predicate tests the same value): "+why, r.P(s.instr))
+					} else {
+						r.Bad(fk, construct, "division by "+s.div.String()+": the reviewed reason for this site is that shouldSkipRewardsToAsset tests the same value for zero in the same iteration, and that no longer holds - a validator whose shares of the asset are worth zero tokens makes every reward settlement on it divide by zero", nil, r.P(s.instr))
+					}
 					continue
 				}
 				// contradiction: the function tests another value for zero than the one it divides by
